@@ -13,7 +13,7 @@ def run(tier, replay=None):
     res.cov["rule"] = ("proof obligations: Properties_C10.v (race freedom of every program of the shape 'construct what is shared, then T workers "
                        "compute on shared engines / construct and use private engines' under an ok footprint; race existence otherwise) + per-run "
                        "obligation fp_ok(fp_from_source)=true over the footprint T-glob scans from the sources. Correspondence: a ThreadSanitizer build "
-                       "of the working tree runs the program shapes (shared engine, private engines, mixed; T threads released together); TSan's verdict "
+                       "of the working tree runs the program shapes (shared engine, private engines, mixed, mixed with private engines of larger limits than the one in use; T threads released together); TSan's verdict "
                        "must equal the model's has_race for each shape, and every thread's results must equal the serial run bit for bit")
     root = build_lib("rel")
     d = t_glob.extract(os.path.join(root, "src"), os.path.join(root, "b", "src", "generated"))
@@ -22,7 +22,7 @@ def run(tier, replay=None):
     os.makedirs(os.path.join(COQ, "gen"), exist_ok=True)
     t_glob.emit(d, os.path.join(COQ, "gen", "Globals.v"))
     Ts = [2, 4, 8] if tier == "quick" else [2, 3, 4, 8, 12, 16]
-    shapes = [(s, T) for s in ("shared", "private", "mixed") for T in Ts]
+    shapes = [(s, T) for s in ("shared", "private", "mixed", "grow") for T in Ts]
     def bodies(s, T):
         if s == "shared":
             return "[" + "; ".join("[Compute 0; Compute 0]" for _ in range(T)) + "]"
